@@ -19,7 +19,7 @@ from halmos.bytevec import ByteVec  # noqa: E402
 from halmos.calldata import FunctionInfo  # noqa: E402
 from halmos.config import ConfigSource, default_config  # noqa: E402
 from halmos.sevm import SEVM, CallContext, Contract, Message, Path, SMTQuery, con  # noqa: E402
-from halmos.solve import PathContext, SolvingContext  # noqa: E402
+from halmos.solve import ContractContext, FunctionContext, PathContext, SolvingContext  # noqa: E402
 from halmos.utils import EVM  # noqa: E402
 
 OPS = dict(STOP=0, ADD=1, MUL=2, SUB=3, DIV=4, SDIV=5, MOD=6, SMOD=7, ADDMOD=8, MULMOD=9, EXP=0xA, SIGNEXTEND=0xB,
@@ -188,3 +188,99 @@ def harvest_ints(files_funcs):
     for v in vals:
         out.update({v - 1, v, v + 1})
     return sorted(x for x in out if x >= 0)
+
+
+def mk_function_ctx(args, name="test", contract="T"):
+    """a real FunctionContext (its __post_init__ picks the dump directory and creates the SolvingContext)"""
+    import contextlib
+    import io
+
+    cctx = ContractContext(args=args, name=contract, funsigs=[], creation_hexcode="", deployed_hexcode="", abi={},
+                           method_identifiers={}, contract_json={}, libs={}, build_out_map={})
+    with contextlib.redirect_stdout(io.StringIO()):
+        return FunctionContext(args=args, info=FunctionInfo(contract, name, f"{name}()", "f8a8fd6d"), solver=None, contract_ctx=cctx)
+
+
+def close_function_ctx(fctx):
+    import contextlib
+
+    fctx.thread_pool.shutdown(wait=False)
+    with contextlib.suppress(Exception):
+        fctx.solving_ctx.executor.shutdown(wait=False)
+    with contextlib.suppress(Exception):
+        fctx.solving_ctx.dump_dir.cleanup()
+
+
+def build_cond(spec, env):
+    """tiny condition language for corpus cases: ["eq"|"ne"|"ult"|"ugt", var, const] | ["muleq"|"diveq"|"modeq", var, var, const]"""
+    from halmos.sevm import f_div, f_mod, f_mul
+
+    op = spec[0]
+
+    def v(n):
+        if n not in env:
+            env[n] = z3.BitVec(n, 256)
+        return env[n]
+
+    def k(c):
+        return z3.BitVecVal(int(c), 256)
+
+    if op == "eq":
+        return v(spec[1]) == k(spec[2])
+    if op == "ne":
+        return v(spec[1]) != k(spec[2])
+    if op == "ult":
+        return z3.ULT(v(spec[1]), k(spec[2]))
+    if op == "ugt":
+        return z3.UGT(v(spec[1]), k(spec[2]))
+    if op == "muleq":
+        return f_mul[256](v(spec[1]), v(spec[2])) == k(spec[3])
+    if op == "diveq":
+        return f_div(v(spec[1]), v(spec[2])) == k(spec[3])
+    if op == "modeq":
+        return f_mod[256](v(spec[1]), v(spec[2])) == k(spec[3])
+    raise ValueError(f"cond spec {spec}")
+
+
+def dumpdir_flow(eng, scenario, base_dir, **over):
+    """scenario: [{"contract", "function", "paths": [[cond spec, ...], ...]}, ...] — every context is a fresh FunctionContext with
+    --dump-smt-directory base_dir (so same-named functions share base_dir/<function>/) and path ids restarting at 0.
+    Yields one dict per path with the real PathContext ready to be solved; the context is closed after its last path."""
+    env = {}
+    for ci, c in enumerate(scenario):
+        args = eng.args(dump_smt_directory=str(base_dir), solver_timeout_assertion=8.0, **over)
+        fctx = mk_function_ctx(args, c["function"], c["contract"])
+        for pid, specs in enumerate(c["paths"]):
+            p = Path(mk_solver(args))
+            for sp in specs:
+                p.append(build_cond(sp, env))
+            q = p.to_smt2(args)
+            pc = PathContext(args=args, path_id=pid, solving_ctx=fctx.solving_ctx, query=q)
+            yield {"ci": ci, "pid": pid, "path": p, "fctx": fctx, "pc": pc, "args": args, "specs": specs, "contract": c["contract"], "function": c["function"]}
+        fctx.thread_pool.shutdown(wait=False)
+
+
+def random_dumpdir_scenario(rng, rounds=2):
+    """same-named test in 2-3 contracts, 1-3 paths each, then the whole thing again (a rerun into the same directory) with other constants"""
+    fn = rng.choice(["check_balance", "test_x", "invariant_sum"])
+    out = []
+    for r in range(rounds):
+        for contract in rng.sample(["A", "B", "C"], rng.choice([2, 2, 3])):
+            paths = []
+            for _ in range(rng.randrange(1, 4)):
+                kind = rng.random()
+                c1 = rng.randrange(2, 50)
+                if kind < 0.35:
+                    specs = [["eq", "halmos_x_uint256_00", c1]]
+                elif kind < 0.55:
+                    specs = [["ult", "halmos_x_uint256_00", c1], ["ugt", "halmos_x_uint256_00", c1 + rng.choice([0, 5])]]   # unsat
+                elif kind < 0.75:
+                    a, b = rng.choice([(3, 5), (2, 7), (3, 7), (5, 5)])
+                    specs = [["muleq", "halmos_x_uint256_00", "halmos_y_uint256_00", a * b], ["eq", "halmos_x_uint256_00", a]]
+                elif kind < 0.9:
+                    specs = [["eq", "halmos_y_uint256_00", c1], ["ne", "halmos_x_uint256_00", c1], ["ult", "halmos_x_uint256_00", c1 + 2], ["ugt", "halmos_x_uint256_00", c1 - 2]]
+                else:
+                    specs = [["modeq", "halmos_x_uint256_00", "halmos_y_uint256_00", 2], ["eq", "halmos_y_uint256_00", 5], ["eq", "halmos_x_uint256_00", 2 + 5 * (c1 % 7)]]
+                paths.append(specs)
+            out.append({"contract": contract, "function": fn, "paths": paths})
+    return out
